@@ -238,3 +238,29 @@ Fixpoint continuation (lines : list bool) : list bool :=
   | true :: r => continuation r      (* connective continuation line: consumed *)
   | false :: r => false :: r          (* next command: stop (it is kept as nextTokens) *)
   end.
+
+(* ---------------------------------------------------------------------------------------- *)
+(* Part 4: framing.resolveFramer -- the tasker name registry is shared by framers, loggers and
+   servers; a name resolves only to a FRAMER, and, when schedule contexts are given, only to
+   one scheduled in one of them *)
+
+Inductive tkind := TFramer (schedule : N) | TOther.
+
+Fixpoint lookup_t (reg : list (N * tkind)) (n : N) : option tkind :=
+  match reg with
+  | [] => None
+  | (k, v) :: r => if N.eqb k n then Some v else lookup_t r n
+  end.
+
+Inductive fres := FOk (schedule : N) | FResolveError.
+
+Definition resolve_framer (reg : list (N * tkind)) (name : N) (contexts : list N) : fres :=
+  match lookup_t reg name with
+  | None => FResolveError                                  (* Bad link name *)
+  | Some TOther => FResolveError                           (* tasker not framer *)
+  | Some (TFramer s) =>
+    match contexts with
+    | [] => FOk s
+    | _ => if memN s contexts then FOk s else FResolveError (* not scheduled as one of contexts *)
+    end
+  end.
